@@ -10,6 +10,11 @@ REPO = os.environ.get('VERIF_REPO', '/repo')
 OUT = os.path.join(VERIF, 'vf', 'out')
 REPLAYS = os.path.join(VERIF, 'replays')
 EVIDENCE = os.path.join(VERIF, 'evidence')
+ALT_TREE = os.path.abspath(REPO) != '/repo'
+if ALT_TREE:
+    # a scratch tree (seeded / benign experiments): never touch the committed evidence
+    REPLAYS = os.path.join(OUT, 'alt', 'replays')
+    EVIDENCE = os.path.join(OUT, 'alt', 'evidence')
 
 # obligation status values
 DISCHARGED = 'discharged'   # proved (unsat negation / frame contained / invariant kept)
